@@ -46,7 +46,12 @@ def gen_episode(rng, long=False):
             g.set_strategy()
         else:
             g.ops.append("lb list")
-    return g.finish()
+    ops = g.finish()
+    if rng.random() < 0.4:
+        # concurrent pickers on whatever state the history left (last op: the rotation state
+        # afterwards depends on the schedule)
+        ops.append("lb pickconc %d %d %d" % (g.t, rng.choice([2, 4, 8]), rng.choice([200, 1000])))
+    return ops
 
 
 def subsets_episodes(rng, full):
@@ -84,6 +89,11 @@ def oracle(ep, outs):
         if o in ("hang", "bad-op"):
             fails.append("%s -> %s" % (line, o))
             break
+        if line.startswith("lb pickconc"):
+            now = int(line.split()[2])
+            if o.startswith("INCOMPLETE") or (o == "n/a" and any(not sh.in_window(x, now) for x in sh.pool)):
+                fails.append("concurrent pickers: %s although a backend is outside its unhealthy window (%s)" % (o, line))
+            continue
         info = sh.apply(line, o)
         if info["op"] != "begin":
             continue
